@@ -198,6 +198,12 @@ def rule_tokens(ctx):
             for c in cons:
                 if c[0].startswith("discr(") and len(c[1]) == 1 and next(iter(c[1])) in ("StartPos", "Fen"):
                     ctxs.append(next(iter(c[1])))
+            if not ctxs:
+                # the `match kind` may have been threaded away (kind is built a few lines above, in the arm that recognised the
+                # keyword): then the slice is dominated by the block that built that kind
+                for vb, vi, vs in b.stmts():
+                    if vs["rv"].get("k") == "agg" and vs["rv"].get("adt") == POSKIND and vs["rv"].get("variant") in ("StartPos", "Fen") and b.dominates(vb, bi):
+                        ctxs.append(vs["rv"]["variant"])
             kw = [s for c in cons for s in [x[1] for x in walk(c[3]) if isinstance(x, tuple) and x[0] == "const" and isinstance(x[1], str)] if True in c[1]]
             kwi = []
             for c in cons:
@@ -229,6 +235,47 @@ def rule_tokens(ctx):
                 if okL:
                     admitted.append(L)
             rows.setdefault(where, []).append(((lo[1] if lo and lo[0] is None else None), (hi[1] if hi and hi[0] is None else None), kwi, admitted))
+    # a command that names a position is never refused: `position startpos ...` always parses, `position fen` with six
+    # fields always parses (a pre-check that turns some FENs away is a second loader whose verdicts nothing here decides)
+    def admitted_lengths(cons):
+        out = []
+        for L in range(0, 24):
+            okL = True
+            for c in cons:
+                e = c[3]
+                if e[0] == "call" and e[1].endswith("<impl [T]>::is_empty") and "args" in c[0]:
+                    okL = okL and ((L == 0) in c[1])
+                elif e[0] == "bin" and e[1] in ("Lt", "Le", "Gt", "Ge", "Eq", "Ne"):
+                    sides = [mir.strip_copies(e[2]), mir.strip_copies(e[3])]
+                    isl = [x[0] == "call" and x[1].endswith("<impl [T]>::len") and "args" in expr_str(x) for x in sides]
+                    k = [ceval(x) for x in sides]
+                    if isl[0] and k[1] is not None:
+                        a, bb_ = L, k[1]
+                    elif isl[1] and k[0] is not None:
+                        a, bb_ = k[0], L
+                    else:
+                        continue
+                    v = {"Lt": a < bb_, "Le": a <= bb_, "Gt": a > bb_, "Ge": a >= bb_, "Eq": a == bb_, "Ne": a != bb_}[e[1]]
+                    okL = okL and (v in c[1])
+            if okL:
+                out.append(L)
+        return out
+    refused = []
+    n_err = 0
+    for bi, i, st in b.stmts():
+        rv = st["rv"]
+        if not (rv.get("k") == "agg" and rv.get("adt") == "std::result::Result" and rv.get("variant") == "Err"):
+            continue
+        n_err += 1
+        cons = C.constraints_for(ix, b, sym, bi)
+        kws = [x[1] for c in cons if c[3][0] == "call" and "eq" in c[3][1] and True in c[1] for x in walk(c[3]) if isinstance(x, tuple) and x[0] == "const" and isinstance(x[1], str)]
+        adm = admitted_lengths(cons)
+        if "fen" in kws and any(L >= 7 for L in adm):
+            refused.append((bi, "a `position fen` command with six FEN fields"))
+        elif "startpos" in kws and any(L >= 1 for L in adm):
+            refused.append((bi, "a `position startpos` command"))
+    ctx.check(n_err >= 1 and not refused, "parse_position:never-refuses-a-named-position", "parse_position returns Err only for a missing / unknown keyword or fewer than six FEN fields (%d Err site(s))" % n_err, b.where(refused[0][0] if refused else 0),
+              bad_what="parse_position can refuse %s (%s): which positions it turns away is not decided here, and a valid one may be among them" % (refused[0][1] if refused else "?", ", ".join(b.where(x) for x, _w in refused[:3])))
     fen = [r for r in rows.get("fen-slice", []) + rows.get(None, []) if r[1] is not None]
     ctx.check(any(r[0] == 1 and r[1] == 7 for r in fen), "parse_position:fen-is-args[1..7]", "the FEN is tokens 1..7 (six fields)", b.where(0), bad_what="FEN slice(s): %s" % [(r[0], r[1]) for r in fen])
     sp = rows.get("StartPos", [])
